@@ -1,6 +1,6 @@
 CFG = dict(
     prop="C11", level="other", harness="c11",
-    props_files=["theories/Props/C11.v"], corr_file="theories/Corr/C11.v", corr_module="Corr.C11",
+    props_files=["theories/Props/C11.v", "theories/Props/Pem.v"], corr_file="theories/Corr/C11.v", corr_module="Corr.C11",
     groups={"skip": False, "strmatch": False, "subdiv": False},
     show_fn={"skip": "model_skip", "strmatch": "model_strmatch", "subdiv": "model_subdiv"},
     shard=200,
